@@ -252,6 +252,28 @@ def run(ctx, spec):
         prog = []
         dl = {'A': 1, 'B': 0}
         while len(prog) < L:
+            if rng.random() < 0.04:
+                # endomorphism template: B = [lambda^k]A shares its y (or, negated, its y up to sign) with A; then combine them,
+                # after optionally making both registers non-normalised
+                lam = pow(gen.LAMBDA_R, rng.choice([1, 2]), r)
+                if rng.random() < 0.5:
+                    lam = r - lam
+                tmpl = [('copy', 'B', 'A'), ('mul', 'B', lam)]
+                if rng.random() < 0.7:
+                    tmpl = [('add', 'A', 'A')] + tmpl
+                tmpl.append(rng.choice([('add', 'A', 'B'), ('sub', 'A', 'B'), ('add', 'B', 'A'), ('sub', 'B', 'A')]))
+                ok = True
+                nd = dl
+                for ins in tmpl:
+                    nd = step(nd, ins)
+                    if nd is None:
+                        ok = False
+                        break
+                if ok:
+                    dl = nd
+                    prog.extend(tmpl)
+                    ctx.count('endomorphism-templates')
+                continue
             ins = INS[rng.randrange(len(INS))]
             if ins[0] in ('mul', 'rmul') and rng.random() < 0.7:
                 ins = (ins[0], ins[1], max(4, gen.scalar_r(rng)[0]))
